@@ -77,6 +77,17 @@ def judge(ctx, rep, spec, pristine, ptree, ops, limit, coords, model_batch, pend
         rep.count("rejected")
     if model_batch is not None and not coords:
         pend.append((case, gf, model_batch.taste(tree, limit)))
+    if coords and focus == "C04" and os.path.exists(leanio.DRIVER):
+        # the coordinate validation against its Lean model (exact rationals): the verdicts agree away from the tolerance band
+        kw0 = {}
+        g0, r0 = tastelib.real_taste(path, limit=limit, nofail=True)
+        if g0:          # everything but the coordinates is fine: the verdict with coordinates is the coordinate check's
+            mv = tastelib.coords_model_verdict(path, leanio, limit)
+            if mv is not None:
+                if (mv == "good") == bool(gf):
+                    rep.agree(); rep.count("coords-model-agrees")
+                else:
+                    rep.tie(f"box-coordinate validation: the validator says {gf}, the Lean model {mv}", case)
     import shutil
     shutil.rmtree(path, ignore_errors=True)
 
